@@ -44,6 +44,7 @@ type H struct {
 	aborted   bool
 	known     int
 
+	maxLive       uint64
 	sweep         map[string]int
 	leakConfirmed map[string]int
 	leakSeen      int
@@ -197,10 +198,10 @@ func (h *H) triple(c *tcase, big bool) (outcome, bool) {
 		// (a pattern not confirmed yet is still re-run in fresh processes, with their own grace period)
 		leakGrace = 100 * time.Millisecond
 	}
-	o, done := guarded(in, func() outcome { return runStream(c.dict(), body, big) })
+	o, done := guarded(in, allowFor(c), func() outcome { return runCase(c, big) })
 	if !done {
 		if h.confirm(c, big, func(r outcome) bool { return r.Class == "timeout" }) {
-			h.fail("timeout", fmt.Sprintf("decoding %d bytes did not finish within %v (three fresh-process re-runs agree)", in, time.Duration(allowedNS(in, o.N))), c, o)
+			h.fail("timeout", fmt.Sprintf("decoding %d bytes did not finish within %v (three fresh-process re-runs agree)", in, time.Duration(allowFor(c)(in, o.N))), c, o)
 			h.aborted = true // the stuck goroutine cannot be stopped; end the run here
 			return o, false
 		}
@@ -274,8 +275,12 @@ func (h *H) triple(c *tcase, big bool) (outcome, bool) {
 			}
 		}
 	}
-	// memory (measured)
+	// memory (measured); where the live heap is sampled, the cumulative TotalAlloc is not judged:
+	// a decoder that allocates and frees one bitmap per segment is within its budget
 	allow := allocAllowance(in, o.N, stageCount(c))
+	if c.Live {
+		allow = ^uint64(0)
+	}
 	if r := float64(o.Alloc) / float64(allow); r > h.maxRatio {
 		h.maxRatio = r
 	}
@@ -285,6 +290,18 @@ func (h *H) triple(c *tcase, big bool) (outcome, bool) {
 	if o.Alloc > allow {
 		if h.confirm(c, big, func(r outcome) bool { return r.Alloc > allow }) {
 			h.fail("alloc-over-budget", fmt.Sprintf("TotalAlloc grew by %d bytes for %d raw bytes and %d output bytes; StreamBudget is %d", o.Alloc, in, o.N, limits.StreamBudget(in)), c, o)
+		}
+	}
+	// memory really held (measured): the live heap during the decode against the budget
+	if c.Live {
+		liveAllow := uint64(limits.StreamBudget(in)) + 1<<20
+		if o.Live > h.maxLive {
+			h.maxLive = o.Live
+		}
+		if o.Live > liveAllow {
+			if h.confirm(c, big, func(r outcome) bool { return r.Live > liveAllow }) {
+				h.fail("live-heap-over-budget", fmt.Sprintf("the decode kept %d bytes reachable (sampled after forced collections) for %d raw bytes; StreamBudget is %d", o.Live, in, limits.StreamBudget(in)), c, o)
+			}
 		}
 	}
 	// goroutines (measured)
@@ -1345,6 +1362,30 @@ func main() {
 		h.hostileRows()
 	}
 	phase("charge sites + ccitt rows")
+	// many large JBIG2 regions: the live heap is sampled, not only the decoder's own accounting
+	// (stride one byte: a byte held per pixel decoded, the cheapest way to hold memory)
+	for _, sh := range [][3]int{{e.Pick(16, 56), 1, 1 << 20}, {e.Pick(0, 40), 2, 1 << 19}} {
+		for _, typ := range []int{38, 39}[:e.Pick(1, 2)] {
+			if sh[0] == 0 {
+				continue
+			}
+			c := h.one("JBIG2Decode", parm{Kind: "null"}, jbig2ManyRegions(sh[0], sh[1], sh[2], typ, 8, 8), "jbig2 many large regions")
+			c.Live = true
+			h.chainCase(c)
+		}
+	}
+	phase("jbig2 live heap")
+	// CCITT 2-D bodies from chosen codes: a reference row with a changing element in every
+	// column, then code storms; time must stay proportional to input plus output
+	for kind := 0; kind < 4 && !h.aborted; kind++ {
+		for _, cols := range []int{1 << 12, e.Pick(1<<18, 1<<20)} {
+			p := parm{Kind: "dict", D: []kv{{"K", pval{T: "i", I: -1}}, {"Columns", pval{T: "i", I: int64(cols)}}}}
+			c := h.one("CCITTFaxDecode", p, ccittDense(cols, kind), fmt.Sprintf("ccitt dense reference row, code storm %d", kind))
+			c.Tight = true
+			h.chainCase(c)
+		}
+	}
+	phase("ccitt code storms")
 	// headers whose claimed geometry straddles the stream budget, for every component layout
 	h.headerSweep()
 	phase("header sweep")
@@ -1420,6 +1461,9 @@ func main() {
 				"run_cut_short_by_a_hang": h.aborted,
 				"known_pattern_leaks":     h.leakSeen,
 				"header_sweep":            h.sweep,
+				"max_live_heap_growth":    h.maxLive,
+				"live_heap_allowance":     "StreamBudget(rawLen) + 1 MiB, against HeapAlloc after forced collections sampled every 2 ms during the decode (multi-segment JBIG2 cases)",
+				"tight_watchdog":          "0.75 s + 5 us per byte for CCITT bodies built from chosen 2-D codes",
 				"failing_cases_by_signature (12 of each are recorded)": h.perSig,
 			},
 		})
